@@ -10,26 +10,26 @@ namespace K
 @[ext] theorem Frame.ext' {a b : Frame ℝ} (h1 : a.left = b.left) (h2 : a.right = b.right) : a = b := by
   cases a; cases b; simp_all
 
-@[simp] theorem Frame.add_left (a b : Frame ℝ) : (Frame.add a b).left = a.left + b.left := rfl
-@[simp] theorem Frame.add_right (a b : Frame ℝ) : (Frame.add a b).right = a.right + b.right := rfl
-@[simp] theorem Frame.scale_left (a : Frame ℝ) (k : ℝ) : (a.scale k).left = a.left * k := rfl
-@[simp] theorem Frame.scale_right (a : Frame ℝ) (k : ℝ) : (a.scale k).right = a.right * k := rfl
-@[simp] theorem Frame.zero_left : (Frame.zero : Frame ℝ).left = 0 := by simp [Frame.zero]
-@[simp] theorem Frame.zero_right : (Frame.zero : Frame ℝ).right = 0 := by simp [Frame.zero]
+@[simp] theorem FrameB.add_left (a b : Frame ℝ) : (Frame.add a b).left = a.left + b.left := rfl
+@[simp] theorem FrameB.add_right (a b : Frame ℝ) : (Frame.add a b).right = a.right + b.right := rfl
+@[simp] theorem FrameB.scale_left (a : Frame ℝ) (k : ℝ) : (a.scale k).left = a.left * k := rfl
+@[simp] theorem FrameB.scale_right (a : Frame ℝ) (k : ℝ) : (a.scale k).right = a.right * k := rfl
+@[simp] theorem FrameB.zero_left : (Frame.zero : Frame ℝ).left = 0 := by simp [Frame.zero]
+@[simp] theorem FrameB.zero_right : (Frame.zero : Frame ℝ).right = 0 := by simp [Frame.zero]
 
-theorem Frame.add_zero (a : Frame ℝ) : Frame.add a Frame.zero = a := by ext <;> simp
-theorem Frame.zero_add (a : Frame ℝ) : Frame.add Frame.zero a = a := by ext <;> simp
-theorem Frame.zero_scale (k : ℝ) : (Frame.zero : Frame ℝ).scale k = Frame.zero := by ext <;> simp
-theorem Frame.scale_zero (a : Frame ℝ) : a.scale 0 = Frame.zero := by ext <;> simp
-theorem Frame.scale_one (a : Frame ℝ) : a.scale 1 = a := by ext <;> simp
-theorem Frame.add_comm (a b : Frame ℝ) : Frame.add a b = Frame.add b a := by ext <;> simp [_root_.add_comm]
-theorem Frame.add_assoc (a b c : Frame ℝ) : Frame.add (Frame.add a b) c = Frame.add a (Frame.add b c) := by
+theorem FrameB.add_zero (a : Frame ℝ) : Frame.add a Frame.zero = a := by ext <;> simp
+theorem FrameB.zero_add (a : Frame ℝ) : Frame.add Frame.zero a = a := by ext <;> simp
+theorem FrameB.zero_scale (k : ℝ) : (Frame.zero : Frame ℝ).scale k = Frame.zero := by ext <;> simp
+theorem FrameB.scale_zero (a : Frame ℝ) : a.scale 0 = Frame.zero := by ext <;> simp
+theorem FrameB.scale_one (a : Frame ℝ) : a.scale 1 = a := by ext <;> simp
+theorem FrameB.add_comm (a b : Frame ℝ) : Frame.add a b = Frame.add b a := by ext <;> simp [_root_.add_comm]
+theorem FrameB.add_assoc (a b c : Frame ℝ) : Frame.add (Frame.add a b) c = Frame.add a (Frame.add b c) := by
   ext <;> simp [_root_.add_assoc]
-theorem Frame.add_scale (a b : Frame ℝ) (k : ℝ) : (Frame.add a b).scale k = Frame.add (a.scale k) (b.scale k) := by
+theorem FrameB.add_scale (a b : Frame ℝ) (k : ℝ) : (Frame.add a b).scale k = Frame.add (a.scale k) (b.scale k) := by
   ext <;> simp [_root_.add_mul]
-theorem Frame.scale_scale (a : Frame ℝ) (k l : ℝ) : (a.scale k).scale l = a.scale (k * l) := by
+theorem FrameB.scale_scale (a : Frame ℝ) (k l : ℝ) : (a.scale k).scale l = a.scale (k * l) := by
   ext <;> simp [_root_.mul_assoc]
-theorem Frame.scale_comm (a : Frame ℝ) (k l : ℝ) : (a.scale k).scale l = (a.scale l).scale k := by
+theorem FrameB.scale_comm (a : Frame ℝ) (k l : ℝ) : (a.scale k).scale l = (a.scale l).scale k := by
   ext <;> simp <;> ring
 
 namespace LineFx
